@@ -42,6 +42,12 @@ def term_of(fn, e, view_info):
             return ("len", x.a)
     if e.k == "local":
         return ("local", e.a)
+    if e.k == "field" and str(e.b) in ("Ok.0", "Continue.0") and e.a.k == "call" and \
+            e.a.a.path in ("std::convert::TryFrom::try_from", "std::convert::TryInto::try_into") and len(e.a.a.args) == 1 and \
+            "TryFromIntError" in e.a.a.fn.locals[e.a.a.dest["l"]].get("t", ""):
+        # the Ok payload of an integer `try_from` is the same number
+        from .expr import call_arg_exprs
+        return term_of(fn, call_arg_exprs(e.a.a)[0], view_info)
     if e.k == "field":
         return ("field", deep_repr(e))
     if e.k == "binop":
